@@ -7,35 +7,53 @@ CFG = {
     "theory_files": ["theories/Mesh/Heap.v", "theories/Mesh/HeapProofs.v", "theories/Mesh/HeapCommute.v",
                      "theories/Mesh/HeapRefine.v"],
     "level_text": "Coq theorems about a heap-level model of modeling.Mesh (Go slices {ptr,len,cap} into an append-only table "
-                  "of backing arrays; every mesh operation modelled by which arrays it reads, allocates, shares and writes): "
-                  "for every growth policy of append(), every history of operations, every pool member and every later "
-                  "time the member reports the same topology, indices, materials, attribute names and attribute values "
-                  "(immutable_history), siblings derived from one base in either order do not influence one another "
-                  "(siblings_independent), and the pinned in-place Append is refuted in the same model. The model is tied "
-                  "to the Go code on every run: generated branching histories are executed on real modeling.Mesh values, "
-                  "EVERY live mesh is re-read after EVERY step through the public API, the snapshots are judged by the "
-                  "property itself (direct oracle) and compared with the model run on the same history (vm_compute)",
+                  "of backing arrays, Go maps as heap objects named by ids; every mesh operation modelled by which arrays "
+                  "and maps it reads, allocates, shares and writes): for every growth policy of append(), every history "
+                  "of operations, every pool member and every later time the member reports the same topology, indices, "
+                  "materials, attribute names and attribute values (immutable_history), siblings derived from one base "
+                  "in either order do not influence one another (siblings_independent, derivations_commute), no "
+                  "operation stores into an existing map (maps_append_only); three defect classes are expressed and "
+                  "refuted in the same model (pinned in-place Append, a write into a shared map, an in-place tidy-up of a "
+                  "slice another mesh's Materials() handed out). heap_refines_pure_partial ties the heap model to the "
+                  "pure model of C02/C03 (Mesh/Pure.v): for NewMesh/EmptyMesh/SetIndices/SetMaterial(s)/"
+                  "SetMaterials(other.Materials())/ToPointCloud/FlipTriangleWinding/ClearAttributeData the created "
+                  "mesh, read through its slices, is the value Pure.step computes, and every member has one pure value "
+                  "for ever (pure_value_stable). The model is tied to the Go code on every run: generated branching "
+                  "histories are executed on real modeling.Mesh values, EVERY live mesh is re-read after EVERY step "
+                  "through the public API, the snapshots are judged by the property itself (direct oracle) and compared "
+                  "with the model run on the same history (vm_compute)",
     "level_note": "Trusted: Coq kernel + vm_compute; hand-written model tied by differential correspondence only (generator "
-                  "quality bounds it); Go maps are modelled as values (no modelled operation writes a map it did not create); "
-                  "contents of arrays produced by float arithmetic (rotations, normals, smoothing) are taken from the "
-                  "implementation - C01 is about sharing, not values",
+                  "quality bounds it); contents of arrays produced by float arithmetic (rotations, normals, smoothing, "
+                  "primitives) are taken from the implementation - C01 is about sharing, not values; "
+                  "heap_refines_pure is partial: the operations that rebuild attribute arrays (Append's attributes, "
+                  "Unweld, RemovedUnreferencedVertices, Weld, filters, Crop, Slice/Split, repeat) and the attribute "
+                  "setters are not connected to Mesh/Pure.v, and mesh_wf (slices lie within their arrays) is a "
+                  "hypothesis, not an invariant proved along histories",
     "technique": "Coq proof (frame invariant over an append-only heap, induction over histories) + vm_compute correspondence "
                  "check with re-reading of every live mesh after every step",
     "design_ref": "DESIGN.md §4 C01, §3.3",
     "n_quick": 200, "n_thorough": 2000,
     "rule": "branching derivation histories of 8-16 (thorough: up to 36) public mesh operations over a pool of live "
             "modeling.Mesh values: constructors (NewMesh with caller slices incl. spare capacity, EmptyMesh, "
-            "primitives.Cube.Welded sharing the package-level index array), Append, SetFloatNAttribute/SetFloatNData/"
-            "CopyFloatNAttribute, SetIndices, SetMaterial(s), ClearAttributeData, Translate/Scale/Rotate/ApplyTRS/"
-            "ModifyFloatN(+Parallel), meshops attribute transformers (translate/scale/rotate/center/normalize/colour "
-            "space/along-normal/flat+smooth normals/laplacian, direct and via Mesh.Transform), ToPointCloud, "
-            "FlipTriangleWinding, Unweld, RemovedUnreferencedVertices, WeldByFloat3Attribute, FilterFloatN, "
-            "RemoveNullFaces3D, CropFloat3Attribute, SliceByPlaneWithAttribute, SplitOnUniqueMaterials, repeat.Mesh, "
-            "Scan*/Transform() identity results, PLY/OBJ/STL/glTF writers; biased toward several siblings derived from "
-            "one base that is itself the result of >=2 Appends; 1-6 attributes of kinds 1-4, all six topologies, "
-            "declared errors and index-out-of-range crashes included; distinct by operation list; non-trivial = at "
-            "least one Append and one member that is the operand of two different steps",
-    "trusted": ["observation = Topology, Indices, Materials (PrimitiveCount + material content), Float{1..4}Attributes and "
+            "NewPointCloud/NewLineStripMesh from caller maps, primitives.Cube.Welded sharing the package-level index "
+            "array, the other primitives Quad/Circle/Cone/Cylinder/UVSphere/Hemisphere/Cube.UnweldedQuads), Append, "
+            "SetFloatNAttribute/SetFloatNData/CopyFloatNAttribute (also with a name that exists under another "
+            "dimension), SetIndices, SetMaterial(s), SetMaterials(other.Materials()), ClearAttributeData, "
+            "Translate/Scale/Rotate/ApplyTRS/ModifyFloatN(+Parallel, +WithPoolSize), meshops attribute transformers "
+            "(translate/scale/rotate/center/normalize/colour space/colour LUT/along-normal/flat+smooth normals/"
+            "implicit-weld normals/laplacian/laplacian along axis, gausops scale/rotate/LUT; direct and via "
+            "Mesh.Transform), ToPointCloud, FlipTriangleWinding, Unweld, RemovedUnreferencedVertices, "
+            "WeldByFloat3Attribute, FilterFloatN, RemoveNullFaces3D, CropFloat3Attribute, SliceByPlaneWithAttribute/"
+            "SliceByPlaneTransformer, SplitOnUniqueMaterials, repeat.Mesh, Scan*/Transform()/QuadricDecimation/"
+            "Pipeline identity results, PLY/OBJ/STL/glTF writers, read-only queries (BoundingBox, OctTree, "
+            "VertexNeighborTable, Tri/Point/Line accessors, voxelize, marching.Mesh, iterators); parameters that make "
+            "an operation change nothing (weld that merges nothing, filter that keeps everything, translate by 0) "
+            "drawn on purpose; biased toward several siblings derived from one base that is itself the result of >=2 "
+            "Appends; 1-6 attributes of kinds 1-4, all six topologies, declared errors and index-out-of-range crashes "
+            "included; distinct by operation list; non-trivial = at least one Append and one member that is the "
+            "operand of two different steps",
+    "trusted": ["observation = Topology, Indices, Materials (PrimitiveCount + material identity, which changes when any field "
+                "of the Material behind the pointer changes), Float{1..4}Attributes and "
                 "every value of every Float{1..4}Attribute iterator, read after every step; floats encoded injectively as "
                 "integers (integer-valued floats as themselves, others by bit pattern; -0 = +0)",
                 "slices handed to the implementation are allocated per step and never touched again by the harness: a "
@@ -46,7 +64,8 @@ CFG = {
                  "cells with grow arbitrary (theorem quantifies over it)",
                  "Go map iteration order and AttributeLength()'s choice of 'some attribute': histories keep attribute "
                  "lengths uniform wherever an operation consults AttributeLength",
-                 "float arithmetic inside transformers: integer-valued inputs (exact) or values taken from the implementation"],
+                 "float arithmetic inside transformers and primitives: integer-valued inputs (exact) or values taken from "
+                 "the implementation"],
 }
 
 
